@@ -35,3 +35,64 @@ pub proof fn lemma_ranges_done_push(consumed: Seq<usize>, plan: Seq<ReadPlan>, b
         }
     }
 }
+
+// ---- functional view (C01): what the parser returns is exactly the payloads of the entries it walked over, in order
+pub open spec fn entries_view(es: Seq<Entry>) -> Seq<Seq<u8>> { Seq::new(es.len(), |i: int| es[i].data@) }
+pub open spec fn all_payloads(buffers: Seq<Vec<u8>>, consumed: Seq<usize>, n: int) -> Seq<Seq<u8>>
+    decreases n
+{
+    if n <= 0 { Seq::empty() } else { all_payloads(buffers, consumed, n - 1) + payloads_d(buffers[n - 1]@, 0, consumed[n - 1] as int) }
+}
+pub open spec fn all_packed(buffers: Seq<Vec<u8>>, consumed: Seq<usize>) -> bool {
+    consumed.len() <= buffers.len() && forall|p: int| 0 <= p < consumed.len() ==> (#[trigger] consumed[p]) <= buffers[p]@.len() && packed_d(buffers[p]@, 0, consumed[p] as int)
+}
+pub proof fn lemma_packed_extend(d: Seq<u8>, a: int, b: int)
+    requires 0 <= a <= b, packed_d(d, a, b), entry_ok_d(d, b), entry_size_d(d, b) >= 0,
+    ensures packed_d(d, a, entry_end_d(d, b)), payloads_d(d, a, entry_end_d(d, b)) == payloads_d(d, a, b).push(d.subrange(b + 256, entry_end_d(d, b))),
+    decreases b - a
+{
+    let e = entry_end_d(d, b);
+    if a >= b {
+        assert(a == b);
+        assert(packed_d(d, e, e));
+        assert(payloads_d(d, e, e) =~= Seq::<Seq<u8>>::empty());
+        assert(payloads_d(d, a, b) =~= Seq::<Seq<u8>>::empty());
+        assert(payloads_d(d, a, e) =~= seq![d.subrange(b + 256, e)]);
+        assert(Seq::<Seq<u8>>::empty().push(d.subrange(b + 256, e)) =~= seq![d.subrange(b + 256, e)]);
+    } else {
+        let n = entry_end_d(d, a);
+        lemma_packed_extend(d, n, b);
+        let p0 = d.subrange(a + 256, n);
+        assert(payloads_d(d, a, e) =~= seq![p0] + payloads_d(d, n, e));
+        assert(payloads_d(d, a, b) =~= seq![p0] + payloads_d(d, n, b));
+        assert(seq![p0] + payloads_d(d, n, b).push(d.subrange(b + 256, e)) =~= (seq![p0] + payloads_d(d, n, b)).push(d.subrange(b + 256, e)));
+    }
+}
+pub proof fn lemma_all_payloads_push(buffers: Seq<Vec<u8>>, consumed: Seq<usize>, c: usize)
+    ensures all_payloads(buffers, consumed.push(c), consumed.len() as int + 1) == all_payloads(buffers, consumed, consumed.len() as int) + payloads_d(buffers[consumed.len() as int]@, 0, c as int)
+{
+    let c2 = consumed.push(c);
+    lemma_all_payloads_frame(buffers, consumed, c2, consumed.len() as int);
+    assert(c2[consumed.len() as int] == c);
+}
+pub proof fn lemma_all_payloads_frame(buffers: Seq<Vec<u8>>, c1: Seq<usize>, c2: Seq<usize>, n: int)
+    requires 0 <= n <= c1.len(), n <= c2.len(), forall|i: int| 0 <= i < n ==> c1[i] == c2[i],
+    ensures all_payloads(buffers, c1, n) == all_payloads(buffers, c2, n),
+    decreases n
+{
+    if n > 0 { lemma_all_payloads_frame(buffers, c1, c2, n - 1); }
+}
+pub proof fn lemma_view_push(es: Seq<Entry>, e: Entry)
+    ensures entries_view(es.push(e)) == entries_view(es).push(e.data@)
+{
+    assert(entries_view(es.push(e)) =~= entries_view(es).push(e.data@));
+}
+pub proof fn lemma_all_packed_push(buffers: Seq<Vec<u8>>, consumed: Seq<usize>, c: usize)
+    requires all_packed(buffers, consumed), consumed.len() < buffers.len(), c <= buffers[consumed.len() as int]@.len(), packed_d(buffers[consumed.len() as int]@, 0, c as int),
+    ensures all_packed(buffers, consumed.push(c)),
+{
+    let c2 = consumed.push(c);
+    assert forall|p: int| 0 <= p < c2.len() implies (#[trigger] c2[p]) <= buffers[p]@.len() && packed_d(buffers[p]@, 0, c2[p] as int) by {
+        if p < consumed.len() { assert(c2[p] == consumed[p]); }
+    }
+}
